@@ -58,9 +58,11 @@ H long h_imc_solve(const double* a, long rows, long cols, const double* bx, cons
     Table B; B.resize(rows);
     for (long k = 0; k < rows; k++) B.set(k, bx[k], by[k], 'i');
     B.Save("b.imc");
-    std::vector<std::pair<std::string, RangeParser> > rs;
-    for (long r = 0; r < nr; r++) { RangeParser rp; rp.Add(rb[r], re[r]); rs.push_back(std::make_pair(std::string(nm[r]), rp)); }
-    imcio_write_index("i.idx", rs);
+    if (rb) {   // rb == nullptr: the index file "i.idx" was put in place by the caller (hand-written index files)
+      std::vector<std::pair<std::string, RangeParser> > rs;
+      for (long r = 0; r < nr; r++) { RangeParser rp; rp.Add(rb[r], re[r]); rs.push_back(std::make_pair(std::string(nm[r]), rp)); }
+      imcio_write_index("i.idx", rs);
+    }
     g_vv[0] = boost::program_options::variable_value(boost::any(std::string("b.imc")), false);
     g_vv[1] = boost::program_options::variable_value(boost::any(std::string("a.gmc")), false);
     g_vv[2] = boost::program_options::variable_value(boost::any(std::string("i.idx")), false);
